@@ -377,7 +377,19 @@ def invariant_for(ex, node, st, lo, hi, elem, log, written_cids, tvars, reason):
     ctx.notes.append(f"invariant route for loop at line {node.lineno} (writes: {label}): {reason}")
     inv = None
     if invs:
-        inv = invs.get(label) or invs.get(ordinal)
+        inv = invs.get(label)
+        if inv is None:
+            # invariants speak about the heap fields / arrays a loop maintains; local temporaries may be renamed, added
+            # or removed without changing which loop this is: match on the non-local part of the write-set
+            def heap_part(lbl):
+                return ",".join(t for t in lbl.split(",") if "." in t or "[" in t)
+            hp = heap_part(label)
+            if hp:
+                cands = [k for k in invs if isinstance(k, str) and heap_part(k) == hp]
+                if len(cands) == 1:
+                    inv = invs[cands[0]]
+        if inv is None:
+            inv = invs.get(ordinal)
     if inv is None:
         ex.unsupported(node, f"loop needs an inductive invariant ({reason}); none supplied for loop #{ordinal} "
                              f"writing '{label}' over '{ast.unparse(node.iter)}'")
